@@ -481,3 +481,45 @@ func init() {
 	intrinsics["math.Min"] = mk(true)
 	intrinsics["math.Max"] = mk(false)
 }
+
+// errors.Is without reflection: identity of the dynamic values, an Is method, the Unwrap chain.
+// (Unwrap() []error trees are not followed; none of the targets uses them.)
+func init() {
+	intrinsics["errors.Is"] = func(e *Exec, th *Thread, caller *Frame, site ssa.Instruction, args []Value) Value {
+		err, _ := args[0].(IfaceV)
+		target, _ := args[1].(IfaceV)
+		if err.T == nil || target.T == nil {
+			return e.ctx.BoolC(err.T == nil && target.T == nil)
+		}
+		for depth := 0; depth < 16; depth++ {
+			if types.Identical(err.T, target.T) && types.Comparable(err.T) {
+				eq := e.equal(err.V, target.V)
+				if !eq.IsConst() {
+					panic(unsupported("errors.Is on symbolic error values"))
+				}
+				if eq.IsTrue() {
+					return e.ctx.BoolC(true)
+				}
+			}
+			if m := e.prog.LookupMethod(err.T, nil, "Is"); m != nil && m.Signature.Params().Len() == 1 && m.Signature.Results().Len() == 1 {
+				r := e.callFn(th, caller, site, m, []Value{err.V, target}, nil)
+				if t, ok := r.(*smt.Term); ok && t.IsTrue() {
+					return e.ctx.BoolC(true)
+				}
+			}
+			m := e.prog.LookupMethod(err.T, nil, "Unwrap")
+			if m == nil || m.Signature.Results().Len() != 1 {
+				return e.ctx.BoolC(false)
+			}
+			if _, isSlice := m.Signature.Results().At(0).Type().Underlying().(*types.Slice); isSlice {
+				return e.ctx.BoolC(false)
+			}
+			next, _ := e.callFn(th, caller, site, m, []Value{err.V}, nil).(IfaceV)
+			if next.T == nil {
+				return e.ctx.BoolC(false)
+			}
+			err = next
+		}
+		return e.ctx.BoolC(false)
+	}
+}
